@@ -55,10 +55,10 @@ class MultiValueTracker(Tracker):
         tracked_values: dict = self.get()
         if len(self._tracked_keys) <= 1:
             return tracked_values
-        try:
-            tracked_values = {key: value / sum(tracked_values.values()) for key, value in tracked_values.items()}
-        except ZeroDivisionError:
-            tracked_values = {key: 0. for key in tracked_values.keys()}
+        total = sum(tracked_values.values())
+        if total == 0:
+            return {key: 0. for key in tracked_values.keys()}
+        tracked_values = {key: value / total for key, value in tracked_values.items()}
         return tracked_values
 
     def __repr__(self):
